@@ -389,6 +389,10 @@ func c03r3(w *World, rr *RuleRun) {
 				continue
 			}
 			ok, why := w.LK.SameCriticalSection(t.mu, ins, sig)
+			if !ok {
+				// the wake-up channel may equally be taken first
+				ok, why = w.LK.SameCriticalSection(t.mu, sig, ins)
+			}
 			rr.At(w, ins, "the stall decision and cond.Signaled() are in one critical section", ok, why)
 		}
 		st, _ := w.ownerStructOf(t.cond)
